@@ -20,8 +20,10 @@ for (path, i), e in zip(sorted(idmap.items()), enc):
     b = e.split(" ")[1]
     rc, dec, err = C.run_lines(C.harness_bin(False), [f"cbor deunitname {b}"])
     name = dec[0].split(" ")[2]
-    rows.append((path, i, name, b))
-(C.VERIF / "pinned" / "unit_bytes.tsv").write_text("".join(f"{p}\t{i}\t{n}\t{b}\n" for p, i, n, b in rows))
+    rc, nm, err = C.run_lines(C.harness_bin(False), [f"cbor unitnames D{i}:1:0"])
+    plur = nm[0].split(" ")[2]
+    rows.append((path, i, name, b, plur))
+(C.VERIF / "pinned" / "unit_bytes.tsv").write_text("".join(f"{p}\t{i}\t{n}\t{b}\t{pl}\n" for p, i, n, b, pl in rows))
 out = subprocess.run([C.harness_bin(False), "dump-facts"], capture_output=True, text=True, timeout=600).stdout
 facts = []
 for line in out.splitlines():
@@ -34,10 +36,16 @@ lean = ["import Anything.Model.UnitTypes",
         "display name of every derived unit. Human-reviewed input (it is what `stable identifier`",
         "refers to); not regenerated on every run. -/", "", "namespace Anything.Spec.Pinned", "",
         "/-- `(identifier, singular display name)` -/", "def ids : List (Nat × List Char) := ["]
-for p, i, n, b in rows:
+names = []
+for p, i, n, b, pl in rows:
     s = bytes.fromhex(n).decode() if n != "-" else ""
+    s2 = bytes.fromhex(pl).decode() if pl != "-" else ""
+    names.append((i, s, s2, p))
     lean.append(f"  ({i}, [" + ", ".join(f"Char.ofNat {ord(c)}" for c in s) + f"]),  -- {p} {s}")
 lean[-1] = lean[-1].replace("]),  --", "])   --", 1)
+lean += ["]", "", "/-- `(identifier, singular, plural)` display names -/", "def names : List (Nat × List Char × List Char) := ["]
+lc = lambda t: "[" + ", ".join(f"Char.ofNat {ord(c)}" for c in t) + "]"
+lean.append(",\n".join(f"  ({i}, {lc(a)}, {lc(b2)})" for i, a, b2, _ in names))
 lean += ["]", "", "end Anything.Spec.Pinned"]
 (C.LEAN / "Anything" / "Spec" / "PinnedIds.lean").write_text("\n".join(lean) + "\n")
 from vcheck import fingerprints
